@@ -1942,6 +1942,19 @@ func (x *Explorer) binop(fr *Frame, st *State, ins *ssa.BinOp) Val {
 	}
 	a, b := x.eval(fr, st, ins.X), x.eval(fr, st, ins.Y)
 	op := ins.Op
+	// an untyped "zero" (a never-assigned field of a zero-initialised local struct) is the zero value of the
+	// operand's static type: an enum tag left at its zero compares as the integer 0
+	normZero := func(v Val, t types.Type) Val {
+		if sy, isSym := v.(*Sym); isSym && sy.N == "zero" && t != nil {
+			if z := zeroVal(t); z != nil {
+				if _, stillSym := z.(*Sym); !stillSym {
+					return z
+				}
+			}
+		}
+		return v
+	}
+	a, b = normZero(a, ins.X.Type()), normZero(b, ins.Y.Type())
 	switch op {
 	case token.EQL, token.NEQ:
 		neg := op == token.NEQ
